@@ -22,7 +22,7 @@ from vlib import Check, Broken, log
 ALL_OPS = ["krig_u", "krig_m", "krig_mb", "neigh_u", "neigh_m", "neigh_mb", "xvalid_u", "xvalid_m", "vario", "vario_cov", "stat",
            "stat_iso", "cov", "cov_sym", "drift", "simtub", "simtub_pt", "simtub_exp", "migrate", "migrate_ball", "migrate_grid",
            "migrate_fill", "reduce", "cov_req", "cov_sym_req", "drift_req", "ranks_req", "krig_on", "simtub_on",
-           "simtub_on_grid"]
+           "simtub_on_grid", "invdist", "nearest", "movave", "movmed", "lstsqr", "avgcov", "global_arith", "global_krig"]
 F_OPS = ["krig_u", "krig_m", "krig_mb", "neigh_u", "neigh_m", "xvalid_u", "xvalid_m", "drift"]
 V_OPS = ["krig_u", "krig_m", "xvalid_u", "cov_sym", "drift"]
 T_OPS = {}          # target-writing operations: name -> "compared with the reduced target Db", from the spec
@@ -153,6 +153,22 @@ class Comparer:
             self.disagree(case, o, "crash", {"signal": res["crash"], "variant": res["variant"]}, res)
             return
         M, P, R = res["M"], res["P"], res["R"]
+        if op == "global_krig" and M["st"] == "ok":
+            # the terms built on Cvv (standard deviation, CVgeo, Cvv) are judged apart: form "cvv"
+            def split(x):
+                if x["st"] != "ok":
+                    return x, []
+                keepv_, cvv_, pos, v = [], [], 0, x["v"]
+                while pos < len(v):
+                    nw = int(v[pos + 7] or 0)
+                    keepv_ += v[pos:pos + 4] + [0, 0, 0] + v[pos + 7:pos + 8 + nw]
+                    cvv_ += v[pos + 4:pos + 7]
+                    pos += 8 + nw
+                return dict(x, v=keepv_), cvv_
+            (M, cm), (P, cp), (R, cr) = split(M), split(P), split(R)
+            if cm != cp or (R["st"] == "ok" and not vec_close(cm, cr, TOL_KRIG)):
+                self.disagree(case, o, "cvv", "standard deviation / CVgeo / Cvv of global_kriging change with the unusable samples",
+                              {"M": cm, "P": cp, "R": cr})
         keep = case["keep"][o["nk"]]
         before = sum(v for k, v in self.counts.items() if k.startswith("disagree:"))
         # ---------------- perturb form: bit for bit
@@ -209,6 +225,10 @@ class Comparer:
                 return None if all(nr == 0 or nc == 0 for nr, nc, _ in mats) else "non-empty matrix although nothing is usable"
             if op == "vario":
                 return None if M["st"] != "ok" or all((x or 0) == 0 for x in M["v"][0::3]) else "pairs although nothing is usable"
+            if op == "avgcov":
+                return None if all((x or 0) == 0 for x in M["v"]) else "non-zero average covariance although nothing is usable"
+            if op in ("global_arith", "global_krig"):
+                return None          # no promise without any datum
             if op in ("stat", "stat_iso"):
                 return None          # checked against the expected counts (spec form)
             return None if M["st"] != "ok" or all_null(M["v"]) else "defined results although nothing is usable"
@@ -288,6 +308,23 @@ class Comparer:
             return None if M["i"] == R["i"] and vec_close(M["v"], R["v"], TOL_SUM) else "statistics differ"
         if op in ("migrate", "migrate_ball", "migrate_grid", "migrate_fill"):
             return None if M["v"] == R["v"] else "migrated values differ"
+        if op == "avgcov":
+            return None if vec_close(M["v"], R["v"], TOL_SUM) else "average covariances differ"
+        if op in ("global_arith", "global_krig"):
+            # per territory: np ng surface zest sse cvgeo cvv nweights weights...; the count of active data of
+            # global_kriging is informative (not compared)
+            def blocks(v):
+                out, pos = [], 0
+                while pos < len(v):
+                    nw = int(v[pos + 7] or 0)
+                    out.append((v[pos:pos + 7], v[pos + 8:pos + 8 + nw]))
+                    pos += 8 + nw
+                return out
+            for k, ((hm, wm), (hr, wr)) in enumerate(zip(blocks(M["v"]), blocks(R["v"]))):
+                first = 1 if op == "global_krig" else 0
+                if not vec_close(hm[first:], hr[first:], TOL_KRIG) or not vec_close(wm, wr, TOL_KRIG):
+                    return "global estimation differs (territory %d): %r %r vs %r %r" % (k + 1, hm, wm, hr, wr)
+            return None
         # kriging, simulation at the targets
         return None if M["i"] == R["i"] and vec_close(M["v"], R["v"], TOL_KRIG) else "results at the targets differ"
 
@@ -484,7 +521,7 @@ def compare_target(ck, counts, tc, op, res, expect, tkeep, reduce_promised):
 # --------------------------------------------------------------------------- driver
 
 def compact_case(v, cid):
-    keys = ["", "c", "cf", "cv", "cfv", "s"]
+    keys = ["", "c", "cf", "cv", "cfv", "s", "sc"]
     return {"id": cid, "n": v["n"], "nvar": v["nvar"], "hasF": v["hasF"], "hasV": v["hasV"], "sel": v["sel"],
             "c": v["c"], "z": v["z"], "f": v["f"], "v": v["v"], "feat": v["feat"],
             "keep": {k: v["keep"][i] for i, k in enumerate(keys)},
